@@ -405,12 +405,16 @@ def boxes_halfgrid(lo, hi, rng=None, limit=None, min_size=1):
     """All boxes with corners on the half grid [lo,hi] and positive width and height
     (doubled-integer units).  With *limit*, a seeded subsample."""
     vals = half_grid(lo, hi)
-    pairs = [(a, b) for a, b in itertools.combinations(vals, 2) if b - a >= min_size]
-    B = np.array([(x0, y0, x1, y1) for x0, x1 in pairs for y0, y1 in pairs], dtype=np.int64)
-    if limit is not None and len(B) > limit:
-        idx = rng.choice(len(B), size=limit, replace=False)
-        B = B[np.sort(idx)]
-    return B
+    pairs = np.array([(a, b) for a, b in itertools.combinations(vals, 2) if b - a >= min_size],
+                     dtype=np.int64).reshape(-1, 2)
+    npairs = len(pairs)
+    if limit is not None and npairs * npairs > limit:
+        # seeded sample of the complete sweep, drawn without materialising it
+        flat_idx = np.unique(rng.integers(0, npairs * npairs, size=int(limit * 1.1)))[:limit]
+        ix, iy = flat_idx // npairs, flat_idx % npairs
+    else:
+        ix, iy = np.divmod(np.arange(npairs * npairs), npairs)
+    return np.stack([pairs[ix, 0], pairs[iy, 0], pairs[ix, 1], pairs[iy, 1]], axis=1)
 
 
 def element_complexity(kind, el):
